@@ -8,9 +8,14 @@
 namespace c13 {
 using namespace gv;
 // ---- isolated execution (fork): a sanitizer abort inside the child becomes a #BAD line of the parent, which goes on ----
-inline void run_isolated(const std::string& op, const Args& a, int timeout_s = 30) {
+// wall-clock limit imposed on the op by an isolating parent (0 = none)
+inline int& alarm_cap() { static int c = 0; return c; }
+inline void arm(int s) { alarm(unsigned(alarm_cap() > 0 && alarm_cap() < s ? alarm_cap() : s)); }
+inline bool& in_child() { static bool b = false; return b; }
+// returns the wait status; the child's stderr (sanitizer report) in `err`
+inline int run_child(const std::string& op, const Args& a, int timeout_s, std::string& err) {
   std::fflush(stdout);
-  int fd[2]; if (pipe(fd) != 0) { run(op, a); return; }
+  int fd[2]; if (pipe(fd) != 0) { run(op, a); return 0; }
   pid_t pid = fork();
   if (pid == 0) {
     close(fd[0]); dup2(fd[1], 2); close(fd[1]);
@@ -19,17 +24,31 @@ inline void run_isolated(const std::string& op, const Args& a, int timeout_s = 3
     __sanitizer_set_death_callback(+[] {});
 #endif
     std::signal(SIGABRT, SIG_DFL);
+    in_child() = true;            // the alarm handler then exits with status 77 instead of printing
+    alarm_cap() = timeout_s;
     alarm(unsigned(timeout_s));
     run(op, a);
     std::fflush(stdout);
     _exit(0);
   }
   close(fd[1]);
-  std::string err; char buf[4096]; ssize_t n;
+  char buf[4096]; ssize_t n;
   while ((n = read(fd[0], buf, sizeof buf)) > 0) if (err.size() < 60000) err.append(buf, size_t(n));
   close(fd[0]);
   int st = 0; waitpid(pid, &st, 0);
+  return st;
+}
+inline void run_isolated(const std::string& op, const Args& a, int timeout_s = 30) {
+  std::string err;
+  int st = run_child(op, a, timeout_s, err);
   stat("evaluations");
+  if (WIFEXITED(st) && WEXITSTATUS(st) == 77) {
+    // timed out: a genuine hang is deterministic, so it must time out again (a child starved by a loaded machine does not)
+    std::string err2; int st2 = run_child(op, a, timeout_s, err2);
+    if (WIFEXITED(st2) && WEXITSTATUS(st2) == 77) { std::printf("#BAD hang :: %s%s :: call did not terminate within %d s in two isolated attempts\n", op.c_str(), join(a).c_str(), timeout_s); return; }
+    stat("isolated_timeout_not_reproduced");
+    st = st2; err = err2;
+  }
   if (!(WIFEXITED(st) && WEXITSTATUS(st) == 0)) {
     std::string sum; std::istringstream is(err); std::string l;
     while (std::getline(is, l)) if (l.find("runtime error") != std::string::npos || l.find("ERROR: AddressSanitizer") != std::string::npos || l.find("SUMMARY") != std::string::npos) { if (sum.size() < 900) sum += l + " | "; }
@@ -37,7 +56,6 @@ inline void run_isolated(const std::string& op, const Args& a, int timeout_s = 3
     std::printf("#BAD sanitizer-isolated :: %s%s :: %s\n", op.c_str(), join(a).c_str(), sum.c_str());
   }
 }
-
 
 // ---- in-process CPU-time watchdog: a call that does not return within `cpu_s` seconds of user CPU time is abandoned by
 // jumping back out of the signal handler (numeric loops hold no locks; leaked memory is irrelevant here).  CPU time, not
